@@ -15,7 +15,7 @@ REPO = os.environ.get("NUCLEO_REPO", "/repo")
 CONTRACTS = os.path.join(VERIF, "contracts")
 SHIM = os.path.join(VERIF, "shim", "memchr")
 KANI_FLAGS = ["-Z", "function-contracts", "-Z", "stubbing", "-Z", "unstable-options"]
-MEM_LIMIT_GB = int(os.environ.get("VERIF_MEM_GB", "28"))
+MEM_LIMIT_GB = int(os.environ.get("VERIF_MEM_GB", "16"))
 
 
 def load_catalogue():
@@ -37,7 +37,7 @@ def _watchdog(pgid, stop, killed):
     """kills solver processes of our process group that exceed the per-process RSS limit
     (RLIMIT_AS cannot be used: rustc reserves more address space than that)"""
     lim_kb = MEM_LIMIT_GB * (1 << 20)
-    total_kb = int(os.environ.get("VERIF_TOTAL_MEM_GB", "52")) * (1 << 20)
+    total_kb = int(os.environ.get("VERIF_TOTAL_MEM_GB", "44")) * (1 << 20)
     while not stop.wait(2.0):
         procs = []
         for d in os.listdir("/proc"):
@@ -54,14 +54,14 @@ def _watchdog(pgid, stop, killed):
                 procs.append((rss, int(d), name))
             except Exception:
                 continue
-        solvers = [x for x in procs if x[2] in ("cbmc", "kissat", "cadical", "z3", "verus", "rust_verify")]
+        solvers = [x for x in procs if x[2] in ("cbmc", "kissat", "cadical", "z3", "verus", "rust_verify", "goto-instrument")]
         for rss, pid, name in solvers:
             if rss > lim_kb:
                 try:
                     os.kill(pid, signal.SIGKILL); killed.append((name, pid, rss))
                 except Exception:
                     pass
-        tot = sum(x[0] for x in solvers)
+        tot = sum(x[0] for x in procs)
         if tot > total_kb and solvers:
             rss, pid, name = max(solvers)
             try:
@@ -220,6 +220,10 @@ def run_kani(cat, dst, scratch, pkg, units, timeout, jobs, feats=""):
             data = json.load(open(out_json))
         except Exception:
             data = None
+    try:
+        open(os.path.join(os.environ.get("VERIF_LOGDIR", "/var/tmp"), "nucleo-verif-last-%s.log" % pkg), "w").write(out)
+    except Exception:
+        pass
     if data is None:
         # compilation failed or kani crashed
         tail = "\n".join(out.strip().split("\n")[-40:])
@@ -411,6 +415,10 @@ def select_units(cat, prop, tier, only=None):
             continue
         if t == "thorough" and tier != "thorough":
             continue
+        # quick tier of a property = the obligations for which it is the primary (first listed)
+        # property + the cheap ones + canaries; the thorough tier runs everything that lists it
+        if tier == "quick" and next(iter(u["props"])) != prop and u.get("cost", 1) > 2 and u.get("expect") != "fail":
+            continue
         if t == "quick-only" and tier != "quick":
             continue
         if only and u["name"] not in only:
@@ -460,7 +468,7 @@ def check(prop, tier, only=None, keep=False):
                 assumptions.append("kani::stub declared in the catalogue: %s replaced by %s" % st)
         if kani_units:
             pkgs = sorted({cat.MODULES[u["module"]]["pkg"] for u in kani_units})
-            jobs = int(os.environ.get("VERIF_JOBS", "0") or 0) or min(16, max(1, len(kani_units)))
+            jobs = int(os.environ.get("VERIF_JOBS", "0") or 0) or min(12, max(1, len(kani_units)))
             timeout = max(u.get("timeout", 600) for u in kani_units)
             if tier == "thorough":
                 timeout = max(timeout, 3600)
@@ -473,10 +481,14 @@ def check(prop, tier, only=None, keep=False):
                 # long obligations first
                 pu.sort(key=lambda u: -u.get("cost", 1))
                 log("[check] kani: %d obligation(s) in %s, -j %d, harness timeout %ds" % (len(pu), pkg, min(jobs, len(pu)), timeout))
-                res, out, wall, tl = run_kani(cat, dst, scratch, pkg, pu, timeout, min(jobs, len(pu)), feats)
-                tools.update(tl)
-                results.update(res)
-                open(os.path.join(scratch, "kani-%s.log" % pkg), "w").write(out)
+                # batches bound kani-driver's memory (it keeps every harness's CBMC output in RAM)
+                chunk = int(os.environ.get("VERIF_CHUNK", "36"))
+                batches = [pu[i::max(1, (len(pu) + chunk - 1) // chunk)] for i in range(max(1, (len(pu) + chunk - 1) // chunk))]
+                for bi, batch in enumerate(batches):
+                    log("[check]   batch %d/%d: %d obligation(s)" % (bi + 1, len(batches), len(batch)))
+                    res, out, wall, tl = run_kani(cat, dst, scratch, pkg, batch, timeout, min(jobs, len(batch)), feats)
+                    tools.update(tl)
+                    results.update(res)
         if verus_units:
             import nvverus
             vres, vassume, vtools = nvverus.run(cat, VERIF, REPO, scratch, verus_units)
